@@ -2,6 +2,38 @@
 
 # verus bundles: contracts/<name>.rs.tpl ; kani suites: kani/<name>.py (see vx/kani_run.py)
 PROPS = {
+    'C01': dict(
+        verus=['bdd_simple', 'mtbdd', 'tdd'],
+        kani=[],
+        level='proof',
+        design_ref='6/C01',
+        text='Verus proves (a) the canonicity lemmas: two well-formed (ordered, reduced) BDD/MTBDD/TDD diagrams with the same truth/value table are identical, hence (hash-consing contract) the handles are equal, and conversely; (b) that the real reduction rules (reduce, DiagramRules::reduce + then_insert) return exactly the reduced node; every operation unit of C02/C04/C10/C11/C13 ensures a well-formed result, so the lemma applies to all handles after any history; (c) that adding levels below a diagram does not change its function',
+        note='hash-consing (unique table: equal handles iff same stored diagram) is the ASSUMED manager contract; reordering is C08; threads C07; BCDD/ZBDD variants listed only when their bundles exist',
+    ),
+    'C03': dict(
+        verus=['bdd_simple', 'mtbdd', 'tdd'],
+        kani=[],
+        level='proof',
+        design_ref='6/C03',
+        text='per-handle structural invariants: every unit that builds a node proves ordered (children strictly below), reduced, levels < num_levels for its result (ok(res)); canonicity gives minimal node count (the reduced diagram of a function is unique); var<->level maps: Kani suite varlevelmap',
+        note='per-level unique-table facts (no two nodes with identical children per level, node listed in the level it reports) are the ASSUMED manager contract',
+    ),
+    'C06': dict(
+        verus=['bdd_simple', 'mtbdd', 'tdd'],
+        kani=[],
+        level='proof',
+        design_ref='6/C06',
+        text='rules layer: every apply-cache get/add in the verified functions is checked against a per-operator invariant inv(operator, operands, result): add requires the entry to be justified under exactly the key used, get may rely only on the key asked for (wrong operator tag, operand order, or numeric key breaks an obligation); result_determined_by_spec + canonicity: the returned handle is independent of which justified answers the cache gives; cache layer (key exactness, gc bracketing): Kani suite apply_cache',
+        note='ApplyCache::get/add contract is assumed at the rules layer and checked separately on the real oxidd-cache code by Kani (bounded capacity); Manager event bracketing (pre/post gc) assumed',
+    ),
+    'C16': dict(
+        verus=['bdd_simple', 'mtbdd', 'tdd'],
+        kani=[],
+        level='proof',
+        design_ref='6/C16',
+        text='"adding variables never changes the function denoted by an existing BDD/MTBDD/TDD handle": lemma add_vars_preserves_function over the term view (new levels are appended below all existing levels)',
+        note='name<->variable bijection of VarNameMap (HashMap<String>) is outside both tools unless the bounded Kani attempt (kani/var_names) is listed in the evidence; that add_vars appends levels at the bottom is the manager contract',
+    ),
     'C02': dict(
         verus=['bdd_simple'],
         kani=[],
